@@ -101,6 +101,10 @@ def ctx(tier):
         for axes in (("X",), ("Y",), ("X", "Y")):
             for ow in (False, True):
                 actions.append(dict(k=list(axes), v=["no_such_variable"], ow=ow, unknown=True))
+                # ... also when a variable the dataset does have is listed before it: names are checked before anything
+                # is registered
+                first = next(v.name for v in vs if v.axes == axes)
+                actions.append(dict(k=list(axes), v=[first, "no_such_variable"], ow=ow, unknown=True))
         _P[tier] = dict(vars=vs, byname=byname, slots=slots, ds=ds, actions=actions)
     return _P[tier]
 
@@ -250,6 +254,12 @@ def check_transition(c, rec, history, act, occ0, tier, ans0=None):
     occ2, ans2, info2 = read_state(c, g)
     rec.transitions += 1
     rec.traces += 1
+    # registering (or displacing) a variable never changes the dataset the Grid was built on
+    for v in c["vars"]:
+        if not np.array_equal(c["ds"][v.name].values, v.values):
+            rec.violation("registry", "dataset-variable-overwritten", case, v.values, c["ds"][v.name].values)
+            c["ds"][v.name].values[...] = v.values  # (restored: the dataset is shared by every history of this process)
+            return None
     if act.get("unknown"):
         rec.case((history, act), True, sample=case, calls=len(history) + 1 + 2 * len(c["slots"]))
         if err is None:
